@@ -176,17 +176,64 @@ class Rig:
     def probe(self):             # observers that are not reachable through mods()
         return {}
 
+    # ---- checkpointing: either every module on its own, or nested in a container through the ROOT's state_dict() /
+    # load_state_dict() (torch calls those only on the root; submodules are reached through _save_to_state_dict /
+    # _load_from_state_dict, hooks and get/set_extra_state)
+    def root(self):
+        nest = self.case.get("nest")
+        if not nest:
+            return None
+        if getattr(self, "_root", None) is None:
+            mods = self.mods()
+            if nest == "moduledict":
+                self._root, self._prefix = nn.ModuleDict({f"m{i}": m for i, m in enumerate(mods)}), "m{}."
+            elif nest == "attr":            # a user nn.Module holding the component(s) next to another stateful module
+                self._root, self._prefix = Holder(mods, getattr(self, "_j", 0)), "m{}."
+            elif nest == "deep":            # ModuleDict inside a user module inside a Sequential
+                self._root = nn.Sequential(nn.Identity(), Holder([nn.ModuleDict({f"m{i}": m for i, m in enumerate(mods)})], getattr(self, "_j", 0)))
+                self._prefix = "1.m0.m{}."
+            else:
+                raise ValueError(nest)
+        return self._root
+
     def state(self):
+        r = self.root()
+        if r is not None:
+            return {"root": r.state_dict()}
         return {str(i): m.state_dict() for i, m in enumerate(self.mods())}
 
     def load(self, ck, strict=True):
+        r = self.root()
+        if r is not None:
+            r.load_state_dict(ck["root"], strict=strict)
+            return
         for i, m in enumerate(self.mods()):
             m.load_state_dict(ck[str(i)], strict=strict)
+
+    def component_sd(self, ck, i=0):
+        """the state dict of module i inside a checkpoint (prefix stripped when nested)"""
+        if self.root() is None:
+            return ck[str(i)]
+        pre = self._prefix.format(i)
+        return {k[len(pre):]: v for k, v in ck["root"].items() if k.startswith(pre)}
 
     def observe(self):
         o = observers(self.mods())
         o.update(self.probe())
         return o
+
+
+class Holder(nn.Module):
+    """a plain user module: the components as attributes m0, m1, ... next to an unrelated stateful sibling"""
+
+    def __init__(self, mods, j=0):
+        nn.Module.__init__(self)
+        self.sibling = nn.Linear(2, 2)
+        with torch.no_grad():              # deterministic per role: sources agree, targets differ from the source until loaded
+            self.sibling.weight.fill_(0.25 * (1 + j))
+            self.sibling.bias.fill_(-0.5 * (1 + j))
+        for i, m in enumerate(mods):
+            setattr(self, f"m{i}", m)
 
 
 class LayerRig(Rig):
@@ -227,12 +274,16 @@ class LayerRig(Rig):
         return out
 
     def state(self):
+        if self.root() is not None:
+            return Rig.state(self)
         s = {"layer": self.layer.state_dict()}
         if self.trainer is not None:
             s["trainer"] = self.trainer.state_dict()
         return s
 
     def load(self, s, strict=True):
+        if self.root() is not None:
+            return Rig.load(self, s, strict)
         self.layer.load_state_dict(s["layer"], strict=strict)
         if self.trainer is not None:
             self.trainer.load_state_dict(s["trainer"], strict=strict)
@@ -359,7 +410,7 @@ class RecordRig(Rig):
                 "rec.read": _try(lambda: self.m.rec.readrange(self.N, 1))}
 
     def fields_failure(self, ck):
-        keys = real_fields(ck["0"])
+        keys = real_fields(self.component_sd(ck))
         # tie to the model's declared persistent fields (C12/Checkpoint.v: rsave = storage + write position)
         if keys != {"_rec_data", "_extra_state._rec_pointer"}:
             return {"ok": False, "what": "persistent_fields_differ", "cls": "RecordTensor", "detail": f"state_dict fields {sorted(keys)}"}
@@ -533,8 +584,8 @@ def stale_accumulator_evidence(keys, obs_k, ob, pre, ck, pre_state):
         if not m:
             return None
         prefix = f"{m.group(1)}._{m.group(2)}."
-        n_ck = sum(1 for sd in ck.values() for kk in sd if kk.startswith(prefix))
-        n_tg = sum(1 for sd in pre_state.values() for kk in sd if kk.startswith(prefix))
+        n_ck = sum(1 for sd in ck.values() for kk in sd if ("." + kk).find("." + prefix) >= 0)
+        n_tg = sum(1 for sd in pre_state.values() for kk in sd if ("." + kk).find("." + prefix) >= 0)
         if n_ck == 0 or n_ck != n_tg:
             return None
         if not torch.is_tensor(pre.get(key)) or sd_equal(pre[key], ob.get(key)) is not None:
@@ -589,51 +640,107 @@ def restore_and_compare(rig, ck, ck_ref, case, xs, modes, recs, obs_k, upto, lab
     return None
 
 
-def protocol(case, mk, T):
-    k = min(case["k"], T)
-    case = dict(case, _k=k)
-    A = mk(0)
-    xs = A.gen_inputs(torch.Generator().manual_seed(case["seed"]), T)
-    modes = gen_modes(case, T, 0)
-    recs, blob, obs_k, follower = [], None, None, None
-    A.observe()
+def run_source(case, A, xs, modes, T, k, quiet, on_k):
+    """run the source; observers after every step (quiet: only from step k on, and at step k only AFTER on_k, i.e. after the
+    state has been saved, so that nothing an observer does - dump() aligns the record - can tidy the state before it is saved)"""
+    recs, obs_k = [], None
+    if not quiet:
+        A.observe()
     for t in range(T + 1):
         if t == k:
-            blob = freeze(A.state())
+            r = on_k()
+            if r:
+                return r, None, None
             obs_k = A.observe()
-            if case.get("transfer") == "live":
-                # the live state_dict() of the source, not serialised, loaded into a target; both keep running
-                follower = make_target(case, mk, 3)
-                pre, pre_state = follower.observe(), {a: list(b.keys()) for a, b in follower.state().items()}
-                try:
-                    follower.load(A.state(), strict=case.get("strict", True))
-                except Exception as e:  # noqa
-                    return _fail("load_failed", f"live transfer: {type(e).__name__}: {str(e)[:400]}")
-                r = compare_restored(follower, obs_k, case, "live transfer", pre, thaw(blob), pre_state)
-                if r:
-                    return r
         if t == T:
             break
         A.event(t)
         out = A.step(t, xs[t], modes[t])
-        recs.append((out, A.observe()))
-        if follower is not None:
-            follower.event(t)
-            o = follower.step(t, xs[t], modes[t])
-            if not out_equal(o, recs[t][0]):
-                return _fail("future_output_differs", f"live transfer at step {k}: output at step {t} differs (source and target share state?)")
-            d = sd_equal(recs[t][1], follower.observe())
-            if d:
-                return _fail("future_observer_differs", f"live transfer at step {k}: observer after step {t} differs: {d}")
+        recs.append((out, A.observe() if (not quiet or t >= k) else None))
+    return None, recs, obs_k
+
+
+def protocol(case, mk0, T):
+    k = min(case["k"], T)
+    case = dict(case, _k=k)
+
+    def mk(j):
+        r = mk0(j)
+        r._j = j
+        return r
+    quiet = bool(case.get("quiet_source"))
+    A = mk(0)
+    xs = A.gen_inputs(torch.Generator().manual_seed(case["seed"]), T)
+    modes = gen_modes(case, T, 0)
+    box = {}
+
+    def save():
+        # the FIRST thing done at step k is state_dict(); then once more: saving must be idempotent
+        box["blob"] = freeze(A.state())
+        box["blob2"] = freeze(A.state())
+        return None
+    r, recsA, obs_k = run_source(case, A, xs, modes, T, k, quiet, save)
+    blob = box["blob"]
+    d = sd_equal(thaw(blob), thaw(box["blob2"]))
+    if d:
+        return _fail("state_dict_not_idempotent", f"two consecutive state_dict() calls at step {k} differ: {d}")
     final_ref = thaw(freeze(A.state()))
-    if follower is not None:
-        d = sd_equal(final_ref, thaw(freeze(follower.state())))
+    # a twin that ran the same inputs and observers but never saved: taking a checkpoint must not change the source's future
+    if quiet or case.get("twin"):
+        W = mk(0)
+        _, recsW, obs_kW = run_source(case, W, xs, modes, T, k, quiet, lambda: None)
+        d = sd_equal(obs_kW, obs_k)
+        if d:
+            return _fail("saving_changed_source", f"observer at step {k} right after state_dict() differs from a twin that did not save: {d}")
+        for t in range(k, T):
+            if not out_equal(recsW[t][0], recsA[t][0]):
+                return _fail("saving_changed_source", f"output at step {t} of the source that saved at step {k} differs from a twin that did not save")
+            d = sd_equal(recsW[t][1], recsA[t][1])
+            if d:
+                return _fail("saving_changed_source", f"observer after step {t} of the source that saved at step {k} differs from a twin that did not: {d}")
+        d = sd_equal(thaw(freeze(W.state())), final_ref)
+        if d:
+            return _fail("saving_changed_source", f"final state of the source that saved at step {k} differs from a twin that did not: {d}")
+    recs = recsA
+    # the live state_dict() of a source at step k, not serialised, loaded into a target; both keep running (source re-run)
+    if case.get("transfer") == "live":
+        L = mk(0)
+        follower_box = {}
+
+        def transfer():
+            fo = make_target(case, mk, 3)
+            pre, pre_state = fo.observe(), {a: list(b.keys()) for a, b in fo.state().items()}
+            try:
+                fo.load(L.state(), strict=case.get("strict", True))
+            except Exception as e:  # noqa
+                return _fail("load_failed", f"live transfer: {type(e).__name__}: {str(e)[:400]}")
+            follower_box["f"] = fo
+            follower_box["args"] = (pre, pre_state)
+            return None
+        r, recsL, obs_kL = run_source(case, L, xs, modes, k, k, quiet, transfer)     # the prefix only
+        if r:
+            return r
+        fo = follower_box["f"]
+        r = compare_restored(fo, obs_kL, case, "live transfer", follower_box["args"][0], thaw(blob), follower_box["args"][1])
+        if r:
+            return r
+        for t in range(k, T):
+            for rig in (L, fo):
+                rig.event(t)
+            oL, oF = L.step(t, xs[t], modes[t]), fo.step(t, xs[t], modes[t])
+            if not out_equal(oF, recs[t][0]) or not out_equal(oL, recs[t][0]):
+                return _fail("future_output_differs", f"live transfer at step {k}: output at step {t} differs (source and target share state?)")
+            for nm, rig in (("source", L), ("target", fo)):
+                d = sd_equal(recs[t][1], rig.observe())
+                if d:
+                    return _fail("future_observer_differs", f"live transfer at step {k}: observer of the {nm} after step {t} differs: {d}")
+        d = sd_equal(final_ref, thaw(freeze(fo.state())))
         if d:
             return _fail("final_state_differs", f"live transfer: {d}")
     ck_ref = thaw(blob)
     ff = None
     if A.cls in DECLARED_FIELDS:
-        ff = fields_failure(A.cls, ck_ref["0"], f" at step {k}")
+        ff = fields_failure(A.cls, A.component_sd(ck_ref), f" at step {k}")
     elif hasattr(A, "fields_failure"):
         ff = A.fields_failure(ck_ref)
     if ff:
